@@ -262,6 +262,10 @@ func urlHelpers(c *Ctx) func(*ssa.Function) bool {
 		switch namedOf(recvType(g)) {
 		case "Url":
 			return true
+		case "SearchParams":
+			// helpers of the list that the reference inventory does not know (clear(), …): init, update and the copy
+			// functions are anchors of their own rules and stay calls
+			return !knownFunc(c, "url", "SearchParams", g.Name())
 		case "":
 			// plain functions taking a *Url (newSearchParamsFor(u))
 			for _, p := range g.Params {
@@ -389,4 +393,24 @@ func enumFlatPaths(g *flatGraph, limit int) ([]*flatPath, bool) {
 	}
 	rec(g.Entry, nil, &flatPath{phi: map[*ssa.Phi]ssa.Value{}, call: map[*ssa.Call]ssa.Value{}}, map[*fnode]bool{})
 	return out, ok
+}
+
+// knownFunc: the reference inventory (spec/names.json) lists a function of this name.
+func knownFunc(c *Ctx, pkg, owner, name string) bool {
+	m := c.Memo("knownFuncs", func() interface{} {
+		out := map[string]bool{}
+		var inv struct {
+			Entities []struct {
+				Kind, Pkg, Owner, Name string
+			} `json:"entities"`
+		}
+		readSpec(c, "names.json", &inv)
+		for _, e := range inv.Entities {
+			if e.Kind == "func" {
+				out[e.Pkg+"."+e.Owner+"."+e.Name] = true
+			}
+		}
+		return out
+	}).(map[string]bool)
+	return m[pkg+"."+owner+"."+name]
 }
